@@ -63,8 +63,15 @@ def _fl(lo, hi):
     return st.floats(lo, hi, allow_nan=False, allow_infinity=False).map(lambda x: round(float(x), 4))
 
 
+def _size(pool):
+    """Physical extent (cell units) = pooled integer + jitter in (-0.45, 0.45): on a uniform grid the box snaps to the
+    pooled cell count, so few distinct array shapes occur (XLA compiles every op once per shape, ~1.5 s per new
+    box) while the surface still cuts the cells at arbitrary offsets."""
+    return st.tuples(st.sampled_from(pool), _fl(-0.45, 0.45)).map(lambda t: round(t[0] + t[1], 4))
+
+
 @st.composite
-def _polygon(draw, max_w, max_h):
+def _polygon(draw, max_w, max_h, pool):
     """Simple polygon in cell units, centred on its bounding-box centre, bbox <= (max_w, max_h)."""
     fam = draw(st.sampled_from(["star", "star", "template"]))
     if fam == "star":
@@ -85,8 +92,8 @@ def _polygon(draw, max_w, max_h):
     pts = pts @ R.T
     ext = pts.max(axis=0) - pts.min(axis=0)
     # target bbox: between 1.2 cells and the available room
-    tw = draw(_fl(1.2, max(1.2, min(9.0, max_w))))
-    th = draw(_fl(1.2, max(1.2, min(9.0, max_h))))
+    tw = min(draw(_size(pool)), max_w)
+    th = min(draw(_size(pool)), max_h)
     s = min(tw / ext[0], th / ext[1])
     pts = pts * s
     pts = pts - 0.5 * (pts.max(axis=0) + pts.min(axis=0))
@@ -100,35 +107,59 @@ def _polygon(draw, max_w, max_h):
     return name, verts
 
 
+VOLUME_SHAPES = [(12, 12, 12), (10, 14, 9), (14, 9, 11)]  # few distinct array shapes keep XLA's per-shape compile cache warm
+
+
+def _cells_needed(E, L):
+    """Upper bound on the number of cells fdtdx gives a box of physical length L (cell units): enough cells,
+    counted from the lower domain edge, to cover L (placement itself is C26's business, this only keeps the
+    generated box inside the volume)."""
+    return max(1, int(np.searchsorted(E, L - 1e-9, side="left")))
+
+
 @st.composite
 def case_strategy(draw, ctx):
     from pbt import scenes
 
-    shape = [draw(st.integers(8, 14)) for _ in range(3)]
+    shape = list(draw(st.sampled_from(VOLUME_SHAPES)))
     grid = draw(scenes.grid_strategy(shape, None, kinds=("uniform", "rect")))
     E = _edges(grid, shape)
+    total = [float(E[a][-1]) for a in range(3)]
     n_shapes = draw(st.integers(1, 3))
+    pool = [2, 3, 5, 8] if ctx.tier == "quick" else [1, 2, 3, 4, 5, 6, 7, 8, 9]
     shapes = []
+
+    def radius(cap):
+        return round(min(draw(_size(pool)), cap) / 2, 5)
+
     for i in range(n_shapes):
         kind = draw(st.sampled_from(["sphere", "ellipsoid", "cylinder", "polygon"]))
-        lo = [draw(st.integers(0, shape[a] - 3)) for a in range(3)]
-        room = [float(E[a][shape[a]] - E[a][lo[a]]) for a in range(3)]  # >= 3 cells >= 1.8
-        s = {"kind": kind, "name": f"shape{i}", "lo": lo}
+        s = {"kind": kind, "name": f"shape{i}"}
+        ext = [None, None, None]  # physical extent per axis in cell units (None: fixed by cell count)
         if kind == "sphere":
-            s["r"] = [draw(_fl(0.55, min(4.5, min(room) / 2)))] * 3
+            s["r"] = [radius(min(total))] * 3
+            ext = [2 * r for r in s["r"]]
         elif kind == "ellipsoid":
-            s["r"] = [draw(_fl(0.55, min(4.5, room[a] / 2))) for a in range(3)]
+            s["r"] = [radius(total[a]) for a in range(3)]
+            ext = [2 * r for r in s["r"]]
         else:
             ax = draw(st.integers(0, 2))
             s["axis"] = ax
-            s["len"] = draw(st.integers(1, min(4, shape[ax] - lo[ax])))
-            t = [a for a in range(3) if a != ax]  # transverse axes in ascending order
+            s["len"] = draw(st.sampled_from([1, 3] if ctx.tier == "quick" else [1, 2, 3, 4]))
+            h, v = transverse(ax)
             if kind == "cylinder":
-                s["r"] = draw(_fl(0.55, min(4.5, min(room[t[0]], room[t[1]]) / 2)))
+                s["r"] = radius(min(total[h], total[v]))
+                ext[h] = ext[v] = 2 * s["r"]
             else:
-                # fdtdx' (horizontal, vertical) convention is resolved in the body; room is taken as the min
-                m = min(room[t[0]], room[t[1]])
-                s["family"], s["vertices"] = draw(_polygon(m, m))
+                s["family"], s["vertices"] = draw(_polygon(total[h], total[v], pool))
+                vv = np.asarray(s["vertices"])
+                ext[h] = float(vv[:, 0].max() - vv[:, 0].min())
+                ext[v] = float(vv[:, 1].max() - vv[:, 1].min())
+        lo = []
+        for a in range(3):
+            k = s["len"] if ext[a] is None else _cells_needed(E[a], ext[a])
+            lo.append(draw(st.integers(0, max(0, shape[a] - k))))
+        s["lo"] = lo
         shapes.append(s)
     return {"shape": shape, "grid": grid, "shapes": shapes}
 
@@ -297,7 +328,7 @@ def body(ctx, case):
 
 
 SUBS = [
-    Sub(name="raster", body=body, strategy=lambda ctx: case_strategy(ctx), quick=70, thorough=5000,
-        lanes=("f64", "f32"), f32_fraction=0.25,
+    Sub(name="raster", body=body, strategy=lambda ctx: case_strategy(ctx), quick=60, thorough=4000,
+        lanes=("f64", "f32"), f32_fraction=0.25, quick_shards=2,
         rule="1..3 random shapes per placed scene; mask compared cell by cell with analytic centre inclusion"),
 ]
